@@ -515,3 +515,37 @@ def rule_g(res: Results, idx: Index) -> None:
             else:
                 res.ok("R-C07g", site, key, f"weak_type=`{src(wk, 50)}`", fi.qualname)
     res.analysed["function_plugin_specs"] = n
+    # the other direction: whatever the body specifications copy from the aval distinguishes bodies, so the dedup key's input
+    # signature has to record it too (weak_type in the spec but not in the key: f(x, 2.0) and f(x, float32(2.0)) share a body)
+    f = idx.func(PS, "FunctionPlugin._lower_and_call")
+    du = defuse(f.node)
+
+    def aval_fields(e: ast.AST, depth: int = 0) -> Set[str]:
+        out: Set[str] = set()
+        for x in ast.walk(e):
+            if isinstance(x, ast.Call) and (call_name(x) or "") == "getattr" and len(x.args) >= 2 and isinstance(x.args[1], ast.Constant) and "aval" in src(x.args[0], 40):
+                out.add(x.args[1].value)
+            elif isinstance(x, ast.Attribute) and isinstance(x.value, ast.Name) and "aval" in x.value.id and isinstance(x.ctx, ast.Load):
+                out.add(x.attr)
+            elif isinstance(x, ast.Name) and depth < 3:
+                for d in du.defs.get(x.id, []):
+                    if d.value is not None and d.kind in ("assign", "walrus") and abs(getattr(d.stmt, "lineno", 0) - getattr(x, "lineno", 0)) < 40:
+                        out |= aval_fields(d.value, depth + 1)
+        return out
+    apps = [c for c in walk_no_nested(f.node) if isinstance(c, ast.Call) and isinstance(c.func, ast.Attribute) and c.func.attr == "append" and isinstance(c.func.value, ast.Name) and c.func.value.id == "in_sigs" and c.args]
+    key = f"{PS}::FunctionPlugin._lower_and_call::input-signature-fields"
+    if not apps:
+        res.unresolved("R-C07g", f.site, key, "`in_sigs.append(...)` not found (key construction restructured)", f.qualname)
+    else:
+        key_fields = aval_fields(apps[0].args[0])
+        spec_fields: Set[str] = set()
+        for c in walk_no_nested(f.node):
+            if isinstance(c, ast.Call) and (call_name(c) or "").endswith("ShapeDtypeStruct") and any("aval" in src(a_, 60) for a_ in list(c.args) + [k.value for k in c.keywords]):
+                for a_ in list(c.args) + [k.value for k in c.keywords]:
+                    spec_fields |= {fl for fl in aval_fields(a_) if fl in ("shape", "dtype", "weak_type", "sharding")}
+        missing = sorted(spec_fields - key_fields)
+        if missing:
+            res.violation("R-C07g", f"{PS}:{apps[0].lineno}", key, f"the body is re-traced from the avals' {sorted(spec_fields)} but the dedup key's input signature records only {sorted(key_fields)}: two call sites that differ in "
+                          f"{missing} (a Python scalar and a float32 scalar of the same value) share one function body and one of them gets the other's result type", f.qualname)
+        else:
+            res.ok("R-C07g", f"{PS}:{apps[0].lineno}", key, f"input signature records {sorted(key_fields)}, specs use {sorted(spec_fields)}", f.qualname)
